@@ -159,6 +159,9 @@ def sorted_copy(v):
         return type(v)(sorted_copy(x) for x in v)
     if type(v) in (set, frozenset):
         return type(v)(sorted_copy(x) for x in v)
+    if type(v).__name__ == 'CallObj' and hasattr(v, '__verif_call__'):
+        # the dicts inside the arguments are sorted; the keyword arguments themselves keep the order given (C17)
+        return type(v)(v.fn, tuple(sorted_copy(x) for x in v.args), [(k, sorted_copy(x)) for k, x in v.kwargs])
     return v
 
 
@@ -673,8 +676,11 @@ def sub_chunk(args):
                         try:
                             a = ast_of(text)
                             if ref is None:
-                                ref = a
-                            elif ref != a:
+                                ref = {}
+                            # one syntax tree per value of sort_dict_keys (sorting is content, not layout)
+                            if st[5] not in ref:
+                                ref[st[5]] = a
+                            elif ref[st[5]] != a:
                                 bad = 'syntax tree depends on layout'
                         except SyntaxError:
                             bad = 'not an expression'
@@ -842,7 +848,9 @@ def calls_section(tier, seed):
             if len(set(map(id, combo))) < n:
                 vals.append(S.CallObj(S.Ctor, combo, []))
                 vals.append(S.CallObj(S.some_function, combo[:-1], [('k', combo[-1])]))
-    cases = [(v, settings_for(rng, v, tier)) for v in vals]
+    # sort_dict_keys is a setting about dicts, never about the keyword arguments of a call - also when a printer hands them over as a plain dict
+    # (pretty_call(ctx, fn, **kwargs), shape 1 of subclasses._pretty_callobj): every third call is also printed with sort_dict_keys=True
+    cases = [(v, settings_for(rng, v, tier, sorts=(0, 1) if (j % 3 == 0 and sortable_deep(v)) else (0,))) for j, v in enumerate(vals)]
     # arguments are printed with the caller's settings: containers longer than the default limit under max_seq_len=None (the call must
     # still evaluate back), and short limits (compared with the model, which truncates every argument like a value printed on its own)
     import subclasses as S
